@@ -294,12 +294,18 @@ func (t *BPTree) WriteNode(n *Node, off int64, syncEnable bool, fd *os.File) (nu
 		off = n.Address
 	}
 
+	if err := verifFS("write", fd.Name(), off, bn); err != nil {
+		return 0, err
+	}
 	number, err = fd.WriteAt(bn, off)
 	if err != nil {
 		return 0, err
 	}
 
 	if syncEnable {
+		if err := verifFS("sync", fd.Name(), 0, nil); err != nil {
+			return 0, err
+		}
 		err = fd.Sync()
 		if err != nil {
 			return 0, err
@@ -317,6 +323,9 @@ func (t *BPTree) WriteNodes(rwMode RWMode, syncEnable bool, flag int) error {
 		err error
 	)
 
+	if err := verifFS("create", t.Filepath, 0, nil); err != nil {
+		return err
+	}
 	fd, err := os.OpenFile(t.Filepath, os.O_CREATE|os.O_RDWR, 0644)
 	defer fd.Close()
 
